@@ -37,7 +37,7 @@ PLAIN = ['assign', 'expr', 'strexpr', 'print', 'noneexpr', 'multi', 'multiexpr',
     # option directives on a CONTINUATION line of a multi-line example (the standard module's directive
     # regex is MULTILINE over the example source, so they apply to that one example)
     'skip_cont_loop', 'skip_cont_call', 'skip_cont_multi', 'skip_cont_want', 'ell_cont', 'ell_cont_silent', 'normws_cont',
-    'normws_cont_silent', 'detail_cont', 'detail_cont_silent', 'ellnorm_cont_last',
+    'normws_cont_silent', 'detail_cont', 'detail_cont_silent', 'ellnorm_cont_last', 'skip_gap_tripstr', 'skip_gap_call', 'detail_gap',
     # expected tracebacks of the SyntaxError family (format_exception_only yields several lines) and
     # multi-line exception messages
     'syn_eval', 'syn_eval_full', 'syn_eval_detail', 'syn_compile', 'syn_compile_full', 'indent_exec', 'indent_exec_full',
@@ -59,7 +59,8 @@ PLAIN = ['assign', 'expr', 'strexpr', 'print', 'noneexpr', 'multi', 'multiexpr',
 # examples that produce no output and have no want (they share a part with their silent neighbours in xdoctest)
 SILENT = ['assign', 'noneexpr', 'multi', 'funcdef', 'classdef', 'deco', 'tripstr', 'comment']
 CONT_DIRECTIVE = ['skip_cont_loop', 'skip_cont_call', 'skip_cont_multi', 'skip_cont_want', 'ell_cont', 'ell_cont_silent',
-                  'normws_cont', 'normws_cont_silent', 'detail_cont', 'detail_cont_silent', 'ellnorm_cont_last']
+                  'normws_cont', 'normws_cont_silent', 'detail_cont', 'detail_cont_silent', 'ellnorm_cont_last',
+                  'skip_gap_tripstr', 'skip_gap_call', 'detail_gap']
 
 
 def make_namespace():
@@ -250,6 +251,22 @@ def example(kind, k):
         d['directive'] = '+SKIP'
         d['directive_line'] = 2
         d['want'] = lambda out: ''
+    elif kind == 'skip_gap_tripstr':
+        # an EMPTY line inside the example (here inside a string literal; written as a bare `...`), the directive after it
+        src('z%d = """l1' % K, '', 'l2""" + str(t(%d) + undefined_name)' % K)
+        d['directive'] = '+SKIP'
+        d['directive_line'] = 2
+        d['want'] = lambda out: ''
+    elif kind == 'skip_gap_call':
+        src('print(t(%d),' % K, '', '      undefined_name)')
+        d['directive'] = '+SKIP'
+        d['directive_line'] = 2
+        d['want'] = lambda out: ''
+    elif kind == 'detail_gap':
+        src('raise ValueError("m%d" %', '', '                 t(%d))' % K)
+        d['directive'] = '+IGNORE_EXCEPTION_DETAIL'
+        d['directive_line'] = 2
+        d['want'] = lambda out: '%s\n    ...\nValueError: a different message\n' % TB
     elif kind == 'skip_cont_want':
         src('print(t(%d),' % K, '      undefined_name)')
         d['directive'] = '+SKIP'
